@@ -37,7 +37,7 @@ const (
 )
 
 func main() {
-	var pkgs, files, scales, nogo, ospkgs multi
+	var pkgs, files, scales, nogo, ospkgs, dense multi
 	repo := flag.String("repo", "/repo", "repository root")
 	out := flag.String("out", "", "output directory for rewritten files")
 	flag.Var(&pkgs, "pkg", "package directory (relative to repo) to rewrite wholesale")
@@ -45,6 +45,7 @@ func main() {
 	flag.Var(&scales, "scale", "file:const=value constant replacement")
 	flag.Var(&nogo, "keepgo", "file (relative) whose go statements stay real goroutines")
 	flag.Var(&ospkgs, "ospkg", "package directory whose import of \"os\" is replaced by the vos shim (file-system calls become crash points); only that import is touched")
+	flag.Var(&dense, "dense", "package directory or file (relative to repo, must also be rewritten) that gets a statement-level scheduling point (vsched.Stmt) in front of every statement")
 	flag.Parse()
 	if *out == "" {
 		fatal("need -out")
@@ -101,6 +102,32 @@ func main() {
 	for _, f := range nogo {
 		keep[f] = true
 	}
+	denseFiles := map[string]bool{}
+	for _, d := range dense {
+		if strings.HasSuffix(d, ".go") {
+			denseFiles[d] = true
+			continue
+		}
+		ents, err := os.ReadDir(filepath.Join(*repo, d))
+		if err != nil {
+			fatal("%v", err)
+		}
+		for _, e := range ents {
+			n := e.Name()
+			if e.IsDir() || !strings.HasSuffix(n, ".go") || strings.HasSuffix(n, "_test.go") {
+				continue
+			}
+			if strings.HasPrefix(n, "verif_export") || strings.HasPrefix(n, "zz_verif") {
+				continue // hook files: the harness' own observation code must not contain scheduling points
+			}
+			denseFiles[filepath.Join(d, n)] = true
+		}
+	}
+	for f := range denseFiles {
+		if !targets[f] || osOnly[f] {
+			fatal("dense: %s is not among the rewritten files", f)
+		}
+	}
 	overlay := map[string]string{}
 	var names []string
 	for f := range targets {
@@ -129,7 +156,7 @@ func main() {
 			}
 			stats["scaled"]++
 		}
-		res, st, err := rewriteFile(rel, src, !keep[rel] && !osOnly[rel], !osOnly[rel], osFiles[rel])
+		res, st, err := rewriteFile(rel, src, !keep[rel] && !osOnly[rel], !osOnly[rel], osFiles[rel], denseFiles[rel])
 		if err != nil {
 			fatal("%s: %v", rel, err)
 		}
@@ -154,7 +181,7 @@ func fatal(f string, a ...interface{}) {
 	os.Exit(2)
 }
 
-func rewriteFile(name string, src []byte, rewriteGo, rewriteSync, rewriteOS bool) ([]byte, map[string]int, error) {
+func rewriteFile(name string, src []byte, rewriteGo, rewriteSync, rewriteOS, denseStmts bool) ([]byte, map[string]int, error) {
 	st := map[string]int{}
 	fset := token.NewFileSet()
 	f, err := parser.ParseFile(fset, name, src, parser.ParseComments)
@@ -262,7 +289,90 @@ func rewriteFile(name string, src []byte, rewriteGo, rewriteSync, rewriteOS bool
 		}
 	}
 	st["go_stmts"] = nGo
-	if nGo > 0 {
+	nStmt := 0
+	if denseStmts {
+		// vsched__.Stmt("file:line") in front of every statement of every function body (nested blocks, case and
+		// select clauses included). Declarations, defer, labels and jumps get none; init functions are left alone.
+		mk := func(pos token.Pos) ast.Stmt {
+			nStmt++
+			site := fmt.Sprintf("%s:%d", filepath.Base(name), fset.Position(pos).Line)
+			return &ast.ExprStmt{X: &ast.CallExpr{
+				Fun:  &ast.SelectorExpr{X: ast.NewIdent("vsched__"), Sel: ast.NewIdent("Stmt")},
+				Args: []ast.Expr{&ast.BasicLit{Kind: token.STRING, Value: strconv.Quote(site)}},
+			}}
+		}
+		wants := func(s ast.Stmt) bool {
+			switch s.(type) {
+			case *ast.DeclStmt, *ast.DeferStmt, *ast.EmptyStmt, *ast.LabeledStmt, *ast.BranchStmt:
+				return false
+			}
+			return true
+		}
+		dense := func(list []ast.Stmt) []ast.Stmt {
+			out := make([]ast.Stmt, 0, 2*len(list))
+			for _, s := range list {
+				if wants(s) {
+					out = append(out, mk(s.Pos()))
+				}
+				out = append(out, s)
+			}
+			return out
+		}
+		for _, d := range f.Decls {
+			fd, ok := d.(*ast.FuncDecl)
+			if !ok || fd.Body == nil || (fd.Recv == nil && fd.Name.Name == "init") {
+				continue
+			}
+			clauseBlocks := map[*ast.BlockStmt]bool{} // bodies of switch / select: their lists hold clauses
+			ast.Inspect(fd.Body, func(n ast.Node) bool {
+				switch x := n.(type) {
+				case *ast.SwitchStmt:
+					clauseBlocks[x.Body] = true
+				case *ast.TypeSwitchStmt:
+					clauseBlocks[x.Body] = true
+				case *ast.SelectStmt:
+					clauseBlocks[x.Body] = true
+				case *ast.BlockStmt:
+					if !clauseBlocks[x] {
+						x.List = dense(x.List)
+					}
+				case *ast.CaseClause:
+					x.Body = dense(x.Body)
+				case *ast.CommClause:
+					x.Body = dense(x.Body)
+				}
+				return true
+			})
+		}
+		st["dense_stmts"] = nStmt
+		// nodes without positions next to positioned comments confuse the printer: keep only the comments in front
+		// of the package clause (build constraints)
+		var keepc []*ast.CommentGroup
+		for _, cg := range f.Comments {
+			if cg.End() < f.Package {
+				keepc = append(keepc, cg)
+			}
+		}
+		f.Comments = keepc
+		ast.Inspect(f, func(n ast.Node) bool {
+			switch x := n.(type) {
+			case *ast.FuncDecl:
+				x.Doc = nil
+			case *ast.GenDecl:
+				x.Doc = nil
+			case *ast.Field:
+				x.Doc, x.Comment = nil, nil
+			case *ast.ValueSpec:
+				x.Doc, x.Comment = nil, nil
+			case *ast.TypeSpec:
+				x.Doc, x.Comment = nil, nil
+			case *ast.ImportSpec:
+				x.Doc, x.Comment = nil, nil
+			}
+			return true
+		})
+	}
+	if nGo > 0 || nStmt > 0 {
 		// add import of vsched
 		spec := &ast.ImportSpec{Name: ast.NewIdent("vsched__"), Path: &ast.BasicLit{Kind: token.STRING, Value: strconv.Quote(vschedPath)}}
 		decl := &ast.GenDecl{Tok: token.IMPORT, Specs: []ast.Spec{spec}}
